@@ -185,36 +185,23 @@ func (t *Tree) String() string {
 }
 
 func GetNode(children []*Node, path string) (*Node, bool) {
-	if len(children) == 0 {
-		return nil, false
-	}
-
 	pathSplit := strings.SplitN(path, "/", 2)
 	searchName := pathSplit[0]
 
-	left := 0
-	right := len(children)
-	for {
-		middle := (left + right) / 2
-		node := children[middle]
-		if node.Name == searchName {
-			if len(node.Children) == 0 {
-				return node, true
-			}
-			if len(pathSplit) > 1 {
-				return GetNode(node.Children, pathSplit[1])
-			} else {
-				return node, true
-			}
-		} else if node.Name < searchName {
-			left = middle + 1
-		} else {
-			right = middle
+	// children are kept in tree order, where a directory sorts as "name/":
+	// that is not the plain order of names, so every child is looked at
+	for _, node := range children {
+		if node.Name != searchName {
+			continue
 		}
-
-		if right-left < 1 {
-			break
+		if len(pathSplit) == 1 {
+			return node, true
 		}
+		if len(node.Children) == 0 {
+			// a file has nothing beneath it
+			return nil, false
+		}
+		return GetNode(node.Children, pathSplit[1])
 	}
 
 	return nil, false
